@@ -1266,3 +1266,34 @@ def origins(body, pv, op, depth=0):
                 else:
                     out.add(("call", t.callee.res or t.callee.deff or "<indirect>"))
     return out
+
+
+TRUNCATING_ADAPTORS = {"take_while", "skip_while", "filter", "take", "skip", "step_by", "filter_map", "find", "find_map", "map_while", "nth", "last", "peekable", "chunks", "windows"}
+
+
+def adaptor_chain(body, pv, op):
+    """names of the calls between an iterator operand and its source, walking receivers (args[0]) backwards through
+    single-definition temporaries"""
+    chain = []
+    cur = op
+    seen = set()
+    defs = pv.defs(body)
+    while cur is not None and cur.place is not None and cur.place.local not in seen:
+        l = cur.place.local
+        seen.add(l)
+        nxt = None
+        for kind, pos, d in defs.get(l, []):
+            if kind == "call":
+                chain.append(d.callee.method)
+                nxt = d.args[0] if d.args else None
+            elif d.rv["k"] == "use":
+                nxt = d.rv["op"]
+            elif d.rv["k"] == "ref":
+                class _O:  # minimal operand wrapper around a place
+                    pass
+                o = _O()
+                o.place = d.rv["place"]
+                o.kind = "copy"
+                nxt = o
+        cur = nxt
+    return chain
